@@ -175,7 +175,13 @@ def stream_names(max_items):
 
 
 # ------------------------------------------------------------------ one execution
-INDEP = "independence/parse_space_packets/result-changed-by-a-later-call-of-the-run"
+INDEP = "independence/parse_space_packets"  # + which result changed; one signature per kind of result, whatever the schedule
+
+
+def _mk_sig(kind, tail):
+    if kind.startswith("independence/"):
+        return "C13." + "/".join(kind.split("/")[:3])
+    return f"C13.{kind}/{tail}"
 
 
 def _observe_held(objs):
@@ -198,9 +204,9 @@ def run_schedule(sp, pids, stream, spans, tail_start, missing, sched, held=None)
         # independence: the lists and bytearrays handed out by earlier calls still have their value
         for lst, snap in lists:
             if [bytes(x) for x in lst] != snap:
-                return (INDEP + "/returned-list", {"pos": pos, "now": [bytes(x) for x in lst], "when_returned": snap})
+                return (INDEP + "/returned-list-changed-by-a-later-call", {"pos": pos, "now": [bytes(x) for x in lst], "when_returned": snap})
         if [bytes(x) for x in objs] != returned:
-            return (INDEP + "/returned-packet", {"pos": pos, "now": [bytes(x) for x in objs], "when_returned": returned})
+            return (INDEP + "/returned-packet-changed-by-a-later-call", {"pos": pos, "now": [bytes(x) for x in objs], "when_returned": returned})
         if res is not None:
             objs.extend(res)
             lists.append((res, [bytes(x) for x in res]))
@@ -309,7 +315,7 @@ def explore_stream(rec, names, mode, kcut, keeper):
         if v:
             kind, detail = v
             feat = _feature(stream, spans, tail_start, detail, sched)
-            rec.violation(f"C13.{kind}/{feat}", {"names": names, "sched": "".join(map(str, sched))}, detail, None,
+            rec.violation(_mk_sig(kind, feat), {"names": names, "sched": "".join(map(str, sched))}, detail, None,
                           repro=_repro(names, sched))
         else:
             outcomes.add(outcome)
@@ -398,10 +404,10 @@ class _Queue:
         pos = self.pos
         for lst, snap in self.lists:
             if [bytes(x) for x in lst] != snap:
-                return (INDEP + "/returned-list", {"pos": pos, "now": [bytes(x) for x in lst], "when_returned": snap})
+                return (INDEP + "/returned-list-changed-by-a-later-call", {"pos": pos, "now": [bytes(x) for x in lst], "when_returned": snap})
         k = len(self.objs)
         if [bytes(x) for x in self.objs] != self.packets[:k]:
-            return (INDEP + "/returned-packet", {"pos": pos, "now": [bytes(x) for x in self.objs], "when_returned": self.packets[:k]})
+            return (INDEP + "/returned-packet-changed-by-a-later-call", {"pos": pos, "now": [bytes(x) for x in self.objs], "when_returned": self.packets[:k]})
         if res is not None:
             new = [bytes(x) for x in res]
             want = self.packets[k:self.nexp[pos]]
@@ -505,7 +511,7 @@ def _merges(m, k):
 
 
 def two_sig(kind, which):
-    return f"C13.{kind}/two-queues/{which}"
+    return _mk_sig(kind, "two-queues/" + which)
 
 
 def explore_two(rec, names_a, names_b, reg, ka, kb, plain, keeper):
@@ -765,7 +771,7 @@ def replay(case):
     v, calls, outcome = run_schedule(sp, _pids(sp), stream, spans, tail_start, missing, sched)
     if v:
         kind, detail = v
-        rec.violation(f"C13.{kind}/{_feature(stream, spans, tail_start, detail, sched)}", case, detail, None)
+        rec.violation(_mk_sig(kind, _feature(stream, spans, tail_start, detail, sched)), case, detail, None)
     return rec.result()
 
 
